@@ -426,6 +426,10 @@ func isZeroStructLoad(p *eng.Prog, v ssa.Value) bool {
 	if !ok || u.Op != token.MUL {
 		return false
 	}
+	// ... or from a package-level variable that is only ever read (`var noDeadline time.Time`)
+	if g, isG := u.X.(*ssa.Global); isG {
+		return readOnlyGlobal(p, g)
+	}
 	a, ok := u.X.(*ssa.Alloc)
 	if !ok {
 		return false
@@ -439,6 +443,29 @@ func isZeroStructLoad(p *eng.Prog, v ssa.Value) bool {
 		}
 	}
 	return true
+}
+
+// readOnlyGlobal: the only uses of g in the whole program are loads: it keeps its zero value.
+func readOnlyGlobal(p *eng.Prog, g *ssa.Global) bool {
+	for f := range p.All {
+		if f.Pkg != g.Pkg {
+			continue
+		}
+		for _, b := range f.Blocks {
+			for _, ins := range b.Instrs {
+				for _, op := range ins.Operands(nil) {
+					if *op != ssa.Value(g) {
+						continue
+					}
+					if u, ok := ins.(*ssa.UnOp); ok && u.Op == token.MUL {
+						continue
+					}
+					return false
+				}
+			}
+		}
+	}
+	return !token.IsExported(g.Name())
 }
 
 // C06.NORESET
